@@ -12,7 +12,6 @@ import (
 	"fmt"
 	"strings"
 	"testing"
-	"testing/synctest"
 	"time"
 
 	dtpb "github.com/google/fhir/go/proto/google/fhir/proto/r4/core/datatypes_go_proto"
@@ -677,7 +676,7 @@ func execC17(t *testing.T, c *Case) *Verdict {
 	}()
 	var sdig string
 	var outs []string
-	synctest.Test(t, func(t *testing.T) {
+	runBubble(t, func(t *testing.T) {
 		start := time.Now()
 		v.Stats.SubRuns++
 		in, err := buildInputs(c)
